@@ -158,6 +158,27 @@ func TestSelf(t *testing.T) {
 			fail("verdict for %s %+v = %+v, want malformed=%v %s", c.target, c.es, k, c.mal, c.what)
 		}
 	}
+	// archive fixtures: the strict reference (internal/catar), the lenient reading and desync agree
+	// that they are archives and on the number of nodes; a dropped payload is refused by both readings
+	for _, name := range []string{"flat.catar", "flatdir.catar", "nested.catar", "complex.catar", "single.catar", "single-big.catar"} {
+		f := fm[name]
+		v := reference(f.Data)
+		lb, ln := lenientBroken(f.Data)
+		r := runTarget("archive", f.Data, unsafeLo)
+		if v.Broken || lb || v.Nodes != ln || r.Calls != v.Nodes || v.Nodes == 0 {
+			fail("fixture %s: reference %+v, lenient reading broken=%v nodes=%d, desync nodes=%d", name, v, lb, ln, r.Calls)
+		}
+		for i, sp := range f.Spans {
+			if sp.Name != "CaFormatPayload" {
+				continue
+			}
+			b, label, ok := applyStruct(f.Data, StructOp{Op: "drop", At: i})
+			lb, _ := lenientBroken(b)
+			if !ok || label != "drop-payload" || !reference(b).Broken || (!lb && name != "single.catar" && name != "single-big.catar") {
+				fail("fixture %s without payload element %d: label %s, reference %+v, lenient broken=%v", name, i, label, reference(b), lb)
+			}
+		}
+	}
 	// structured index cases against the independent codec (internal/ref): an unmutated table parses
 	// there, everything the builder calls certainly malformed (other than an oversize chunk, which
 	// the strict parser does not judge) is refused there, and desync accepts the unmutated ones
